@@ -90,6 +90,7 @@ def check_log(log):
         bad.append(("document-events-not-exactly-once", ""))
     stack = []
     prefixes = []
+    bound = {}
     out = []
     for i, e in enumerate(log):
         k = e[0]
@@ -97,6 +98,7 @@ def check_log(log):
             if stack:
                 bad.append(("prefix-mapping-inside-element", repr(e)))
             prefixes.append(e[1])
+            bound[e[1]] = e[2]
         elif k == "endPrefixMapping":
             if stack:
                 bad.append(("prefix-mapping-inside-element", repr(e)))
@@ -106,6 +108,11 @@ def check_log(log):
                 bad.append(("unbalanced-prefix-mapping", repr(e)))
         elif k == "startElementNS":
             (ns, name), qname, items, qn = e[1], e[2], e[3], e[4]
+            # XML namespaces: a prefix (or the default, None) that the stream has bound must resolve to the namespace the
+            # event itself states for the element
+            pfx = qname.split(":", 1)[0] if isinstance(qname, str) and ":" in qname and qname.split(":", 1)[0] in bound else None
+            if pfx in bound and ns is not None and bound[pfx] != ns:
+                bad.append(("qname-resolves-to-another-namespace", "element %r qname %r: prefix %r is bound to %r" % ((ns, name), qname, pfx, bound[pfx])))
             stack.append((ns, name))
             out.append(("S", ns, name, tuple(sorted((streams.attr_key(a[0], a[1]), v) for a, v in items))))
             for key, got in qn:
@@ -152,12 +159,15 @@ def run_case(ctx, case):
     from .. import h5
     from html5lib.treeadapters import sax
     data, frag = case["input"], case["frag"]
+    nsflag = bool(case.get("ns", True))
     for kind in ("etree", "dom"):
         try:
             if frag:
-                flat, p, tree = h5.parse_frag(data, container=case["container"], kind=kind)
+                flat, p, tree = h5.parse_frag(data, container=case["container"], kind=kind, ns=nsflag)
             else:
-                flat, p, tree = h5.parse_doc(data, kind="etree-full" if kind == "etree" else "dom")
+                flat, p, tree = h5.parse_doc(data, kind="etree-full" if kind == "etree" else "dom", ns=nsflag)
+            if not nsflag:
+                ctx.count("trees_with_unnamespaced_html_elements")
         except Exception:
             ctx.count("parse_raised")
             return
@@ -209,6 +219,7 @@ def shard(ctx):
             k += 1
             if ctx.mine(k):
                 run_case(ctx, {"input": s, "frag": frag, "container": cont})
+                run_case(ctx, {"input": s, "frag": frag, "container": cont, "ns": False})
     for q in gen.token_sequences(ctx, 3, 3, 0.4):
         run_case(ctx, {"input": q, "frag": False, "container": None})
         ctx.count("sequence_cases")
@@ -222,6 +233,8 @@ def shard(ctx):
         data = streams.gen_input(rng, 25 if ctx.tier == "quick" else 80)
         frag = rng.random() < 0.3
         case = {"input": data, "frag": frag, "container": rng.choice(gen.CONTEXTS) if frag else None}
+        if rng.random() < 0.15:
+            case["ns"] = False
         run_case(ctx, case)
         if n <= 3 and ctx.i == 0:
             ctx.sample(case)
